@@ -325,6 +325,12 @@ class CExec:
                 return CV(ty, S.wrap(m, ty.bits, True))
             self.oblige(st, "ub", "signed_overflow." + what, z3.And(m >= ty.min, m <= ty.max), node)
             return CV(ty, m)
+        if self.opt.get("probe_unsigned"):
+            # unsigned arithmetic is modulo 2^bits; when the quantifier-free part of the path already refutes a wrap, the
+            # reduction is the identity and is left out (keeps terms such as f(pos + 1) in a shape that quantifier triggers match)
+            from .core import check_sat as _cs, qf_part as _qf
+            if _cs(_qf(st.path) + [z3.Not(z3.And(m >= 0, m < (1 << ty.bits)))], 1) == z3.unsat:
+                return CV(ty, m)
         return CV(ty, m % (1 << ty.bits))
 
     def convert(self, st, v, ty, node=None, explicit=False):
@@ -441,12 +447,22 @@ class CExec:
         if op == "|":
             # semantic idiom decided by the solver under the current path: one operand is a multiple of 2^k and the
             # other lies in [0, 2^k) (disjoint bits)  =>  x | y == x + y   (lemma or-disjoint in contracts/idioms.py)
-            from .core import check_sat as _cs
-            for u, v in ((x, y), (y, x)):
-                for k in range(1, min(ty.bits, 33)):
-                    cond = z3.And(u.t % (1 << k) == 0, u.t >= 0, v.t >= 0, v.t < (1 << k))
-                    if _cs(list(st.path) + [z3.Not(cond)], 2) == z3.unsat:
-                        return CV(ty, u.t + v.t, sym=("or", x, y))
+            from .core import check_sat as _cs, qf_part as _qf
+            qf = _qf(st.path)         # decided on the quantifier-free part of the path first (weaker hypotheses: `unsat` stays valid)
+            for path in ((qf, list(st.path)) if len(qf) != len(st.path) else (qf,)):
+                for u, v in ((x, y), (y, x)):
+                    ks = range(1, min(ty.bits, 33))
+                    if z3.is_int_value(u.t) and u.t.as_long() > 0:
+                        c = u.t.as_long()
+                        ks = [(c & -c).bit_length() - 1]         # a constant: the only useful k is its number of trailing zero bits
+                        if ks[0] == 0:
+                            continue
+                    elif z3.is_int_value(v.t) and path is not qf:
+                        continue
+                    for k in ks:
+                        cond = z3.And(u.t % (1 << k) == 0, u.t >= 0, v.t >= 0, v.t < (1 << k))
+                        if _cs(path + [z3.Not(cond)], 2) == z3.unsat:
+                            return CV(ty, u.t + v.t, sym=("or", x, y))
             # exact when one operand is zero; otherwise the island
             isl = self.island(op, x, y, ty)
             return CV(ty, z3.If(x.t == 0, y.t, z3.If(y.t == 0, x.t, isl)), sym=("or", x, y))
@@ -626,6 +642,10 @@ class CExec:
             # pointer-valued elements are opaque objects
             return Ptr(o.elem, "%s[]" % p.obj, z3.IntVal(0))
         t = z3.simplify(z3.Select(st.mem[p.obj], p.off))
+        if o.elem.kind == "int":
+            # an object of integer type holds a value of that type (the instance, for this element, of the range fact stated when
+            # the object was created; it survives havocs of the array by loop invariants)
+            st.path.append(z3.And(t >= o.elem.min, t <= o.elem.max))
         view = getattr(p.ty, "pointee", None)
         if (view is not None and view.kind == "int" and o.elem.kind == "int" and view.bits == 8 and o.elem.bits == 8
                 and view.signed != o.elem.signed):
@@ -1273,6 +1293,18 @@ class CExec:
         if self.steps > self.opt["max_steps"]:
             raise OutOfSubset("step budget exceeded")
         k = n["kind"]
+        summ = self.opt.get("summaries")
+        if summ:
+            # statement summaries: a block of the function that is verified on its own (a fragment unit with the SAME contract)
+            # is replaced here by that contract: its precondition becomes an obligation, its effect is its postcondition
+            if getattr(self, "_summ_nodes", None) is None:
+                self._summ_nodes = [(finder(self.func), summary) for finder, summary in summ]
+                for node, _s in self._summ_nodes:
+                    if node is None:
+                        raise StaleContract("summarised statement not found in %s" % self.func.get("name"))
+            for node, summary in self._summ_nodes:
+                if node is n:
+                    return summary(self, st, n)
         if k == "CompoundStmt":
             return self.exec_block(st, n.get("inner", []))
         if k == "DeclStmt":
@@ -1282,6 +1314,26 @@ class CExec:
         if k == "NullStmt":
             return [("normal", st, None)]
         if k == "ReturnStmt":
+            if n.get("inner"):
+                # `return c ? a : b;` with arms that do not merge into one value (NULL against a pointer into a buffer): two returns
+                x = n["inner"][0]
+                while x.get("kind") in ("ImplicitCastExpr", "ParenExpr", "CStyleCastExpr") and x.get("inner"):
+                    x = x["inner"][0]
+                if x.get("kind") == "ConditionalOperator":
+                    probe = st.copy()
+                    n_obl = len(self.obligations)
+                    try:
+                        v = self.ev(probe, n["inner"][0])
+                        st.vars, st.mem, st.path = probe.vars, probe.mem, probe.path
+                        return [("return", st, v)]
+                    except MergeFail:
+                        del self.obligations[n_obl:]
+                        c0, a, b = x["inner"]
+                        c = z3.simplify(as_bool(self.ev(st, c0)))
+                        s1, s2 = st.copy(), st.copy()
+                        s1.path.append(c)
+                        s2.path.append(z3.Not(c))
+                        return [("return", s1, self.ev(s1, a)), ("return", s2, self.ev(s2, b))]
             v = self.ev(st, n["inner"][0]) if n.get("inner") else None
             return [("return", st, v)]
         if k == "IfStmt":
